@@ -71,7 +71,8 @@ def noteHit (p : Params) (r e : Note) : Bool :=
      | none => true
      | some ρ => offsetHit ρ p.offsetMinTol p.strict r.1 e.1)
 
-/-! ### `util._bipartite_match` (Hopcroft–Karp, dict-order faithful; untrusted, output checked) -/
+/-! ### `util._bipartite_match` (Hopcroft–Karp, dict-order faithful; proved valid and maximum for every dict in
+     `MirProofs.Props.C05_HK`; the output is still run through the proved checker) -/
 
 abbrev AL (α : Type) := List (Nat × α)
 
@@ -425,6 +426,13 @@ def aorDomain (refI estI : List Ival) (m : List Edge) : Bool :=
 
 def liftUnit (r : Py Unit) : Py Val := r.map fun _ => Val.none
 
+/-- an adjacency dict `[[u, [v, …]], …]` in insertion order; `none` unless the keys are distinct -/
+def asAdj? (v : Val) : Option (AL (List Nat)) := do
+  let g ← (← v.asList?).mapM fun p => do
+    let (a, b) ← p.asPair?
+    some ((← a.asNat?), (← b.asNats?))
+  if nodupB (g.map Prod.fst) then some g else none
+
 def handler : Handler := fun fn args =>
   match fn, args with
   | "transcription.validate_intervals", [ri, ei] => do
@@ -530,6 +538,13 @@ def handler : Handler := fun fn args =>
       -- straight from the transliteration (no certificate guard), plus the certified maximum size
       let es ← es.asNatPairs?
       some (.ok (.list [Val.ofNatPairs (sortPairs (hkMatch (buildGraph es))), Val.ofNat (maxMatchSize es)]))
+  | "util._bipartite_match", [adj] => do
+      -- sorted(util._bipartite_match(G).items()) for the dict G given in insertion order (adjacency lists in
+      -- the given order, empty lists allowed), straight from the transliteration `hkMatch` (about which
+      -- MirProofs.Props.C05_HK proves validity and maximality), plus the certified maximum size
+      let g ← asAdj? adj
+      let es : List Edge := g.flatMap fun uv => uv.2.map fun v => (uv.1, v)
+      some (.ok (.list [Val.ofNatPairs (sortPairs (hkMatch g)), Val.ofNat (maxMatchSize es)]))
   | "transcription.round4", [x] => do
       let x ← x.asRat?
       some (.ok (.rat (round4 x)))
